@@ -692,12 +692,26 @@ def rule_run_reports_filtered(ctx):
     mechanism and are listed, not judged.
     """
     n_sites = 0
-    for fi in sorted((f for f in ctx.prog.all_functions() if f.module.name == "executor" and f.parent is None), key=lambda f: f.fq):
+    execs = sorted((f for f in ctx.prog.all_functions() if f.module.name == "executor" and f.parent is None), key=lambda f: f.fq)
+    for fi in execs:
         for c in calls_in(fi.node):
             if callee_name(c) != "update_file_hashes":
                 continue
             cause = kwarg(c, "cause")
             names = sorted({n.attr for n in ast.walk(cause) if isinstance(n, ast.Attribute) and isinstance(n.value, ast.Name) and n.value.id == "HashUpdateCause"}) if cause is not None else []
+            own_params = [a.arg for a in fi.node.args.args + fi.node.args.kwonlyargs]
+            if not names and isinstance(cause, ast.Name) and cause.id in own_params:
+                # a recording helper that takes the cause from its callers: the causes are those the callers name
+                pos = [a.arg for a in fi.node.args.args if a.arg != "self"]
+                for g in execs:
+                    for c2 in calls_in(g.node):
+                        if callee_name(c2) != fi.name:
+                            continue
+                        arg = kwarg(c2, cause.id)
+                        if arg is None and cause.id in pos and pos.index(cause.id) < len(c2.args):
+                            arg = c2.args[pos.index(cause.id)]
+                        if arg is not None:
+                            names = sorted(set(names) | {n.attr for n in ast.walk(arg) if isinstance(n, ast.Attribute) and isinstance(n.value, ast.Name) and n.value.id == "HashUpdateCause"})
             if not names:
                 ctx.ok(fi.fq, "hash job: the cause comes with the job (listed, not judged by this rule)", "out of scope", where=ctx.where_of(fi, c))
                 continue
@@ -749,6 +763,7 @@ def _drop_trigger(name, file):
 
 
 MUTANTS = [
+    Mutant("recording-helper-with-cause-parameter-unfiltered", "executor.py", lambda t: (t.replace("                self._record_written_outputs(new_out_hashes)\n", "                self._record_any(new_out_hashes, HashUpdateCause.FAILED)\n", 1).replace("    def _record_written_outputs(self, out_hashes: Mapping[str, FileHash]) -> None:\n", "    def _record_any(self, out_hashes, cause) -> None:\n        self.workflow.update_file_hashes(out_hashes, cause=cause)\n\n    def _record_written_outputs(self, out_hashes: Mapping[str, FileHash]) -> None:\n", 1)) if "                self._record_written_outputs(new_out_hashes)\n" in t else None, ("R-C09-13",)),
     Mutant("dropped-run-report-negative-selection", "executor.py", in_function("Executor._record_written_outputs", replace_once("file.get_state() in FILE_STATES_BY_ROLE[FileRole.OUTPUT]", "file.get_state() not in FILE_STATES_BY_ROLE[FileRole.STATIC]")), ("R-C09-13",)),
     Mutant("dropped-run-report-unfiltered", "executor.py", in_function("Executor._record_written_outputs", replace_once("        self.workflow.update_file_hashes(still_outputs, cause=HashUpdateCause.FAILED)\n", "        self.workflow.update_file_hashes(out_hashes, cause=HashUpdateCause.FAILED)\n")), ("R-C09-13",)),
     Mutant("dropped-run-report-state-test-gone", "executor.py", in_function("Executor._record_written_outputs", replace_once("            if file is not None and file.get_state() in FILE_STATES_BY_ROLE[FileRole.OUTPUT]:\n", "            if file is not None:\n")), ("R-C09-13",)),
@@ -798,6 +813,7 @@ MUTANTS = [
 MUTANTS += [Mutant("shared-" + m.name, m.file, m.transform, ("R-C09-14",), m.note) for m in C12.MUTANTS if m.name in ['redeclared-running-row-reset', 'checking-row-reset-by-redeclaration', 'dropped-run-outputs-recorded-whatever-their-role', 'redeclared-running-loses-holds']]
 
 VARIANTS = [
+    shared.REPAIR_SKETCH_F63,
     Variant("reorder-transition-rows", "workflow.py", lambda t: t.replace('    (HashUpdateCause.EXTERNAL, FileState.MISSING, True): (FileState.CONFIRMED, "updated"),\n    (HashUpdateCause.EXTERNAL, FileState.CONFIRMED, True): (FileState.CONFIRMED, "updated"),\n', '    (HashUpdateCause.EXTERNAL, FileState.CONFIRMED, True): (FileState.CONFIRMED, "updated"),\n    (HashUpdateCause.EXTERNAL, FileState.MISSING, True): (FileState.CONFIRMED, "updated"),\n')),
     Variant("check-rewrite", "step.py", replace_once("    CHECK (NOT deferred OR state = {StepState.PENDING.value})\n", "    CHECK (deferred = 0 OR state IN ({StepState.PENDING.value}))\n")),
 ]
